@@ -193,6 +193,8 @@ def main():
         rc, nviol, first, secs = run_check(prop)
         entry.update(check_exit=rc, violation_lines=nviol, first=first, seconds=round(secs, 1))
         entry["status"] = "caught" if rc == 1 and nviol > 0 else ("harness-error" if rc == 2 else "MISSED")
+        if "CONTROL" in mname:
+            entry["status"] = "control-quiet" if rc == 0 else "CONTROL-FALSE-ALARM"
         results.append(entry); print(json.dumps(entry)); sys.stdout.flush()
         clean_repo()
     clean_repo()
